@@ -145,13 +145,12 @@ Print Assumptions modelled_algorithms_unchanged.
 
 (* sql_compat: whenever the emitter omits parentheses at a (parent, hole, child), the engine regroups to
    the same tree or to a rotation licensed by a law -- for EVERY triple of the dialect (all templates of the
-   dialect, the string and date functions included) outside the two known classes left on the repaired tree.
+   dialect, the string and date functions included) outside the one known class left.
    FULL STATEMENT (false):  bad_table d = [].
    known_triple d = F5: the child is a template that declares strength 100 over a top-level `*` or `/`
-   (div_i, math.log); C02-N5 (d = sqlite only): the parent is text.starts_with / contains / ends_with and the
-   hole is the pattern operand that sits next to `||` with required strength 0.
-   F2, F4, F30, C02-N2, C02-N3 and C02-N6 were repaired in /repo (bfc17a4, 5dd3d34, 5bac898, ac95a5d, e8f08a7)
-   and are not excused. *)
+   (div_i, math.log).
+   F2, F4, F30, C02-N2, C02-N3, C02-N6 and C02-N5 were repaired in /repo (bfc17a4, 5dd3d34, 5bac898, ac95a5d, e8f08a7,
+   bb7bbd5) and are not excused. *)
 Theorem sql_compat_sqlite_partial : sql_compat d_sqlite = true.
 Proof. vm_compute. reflexivity. Qed.
 Print Assumptions sql_compat_sqlite_partial.
@@ -167,19 +166,21 @@ Definition mem_triple (t : triple) (l : list triple) : bool :=
 Theorem sql_compat_refuted :
   mem_triple (k_mod, 1, k_div_i)%nat (bad_table d_sqlite) = true      (* F5  c % (a // b) -> c % ROUND(..) * SIGN(a) * SIGN(b) *)
   /\ mem_triple (k_mod, 1, k_div_i)%nat (bad_table d_generic) = true
-  /\ mem_triple (k_mul, 1, k_math_log)%nat (bad_table d_generic) = true   (* F5  a * (math.log b c) -> a * LOG10(c) / LOG10(b) *)
-  /\ mem_triple (k_text_starts_with, 1, k_add)%nat (bad_table d_sqlite) = true.  (* C02-N5  text.starts_with (b + c) a -> a LIKE b + c || '%' *)
+  /\ mem_triple (k_mul, 1, k_math_log)%nat (bad_table d_generic) = true.  (* F5  a * (math.log b c) -> a * LOG10(c) / LOG10(b) *)
 Proof. vm_compute. repeat split; reflexivity. Qed.
 Print Assumptions sql_compat_refuted.
 
 (* the classes repaired in /repo stay repaired: none of their witnesses is a bad triple any more *)
-(* the generic LIKE templates build their pattern with CONCAT( ): no (LIKE template, any hole, any child) triple
-   of sql.generic is bad, and in sql.sqlite none outside the pattern hole *)
-Theorem like_templates_fine_outside_pattern_hole :
-  forallb (fun t => negb (mem (fst (fst t)) concat_pattern_templates)) (bad_table d_generic) &&
-  forallb (fun t => negb (mem (fst (fst t)) concat_pattern_templates) || Nat.eqb (snd (fst t)) 1) (bad_table d_sqlite) = true.
+(* FULL STRENGTH since /repo bb7bbd5 (before: `_outside_pattern_hole`, C02-N5): no (LIKE template, any hole, any child)
+   triple is bad, in either dialect -- F5 children included: the pattern hole now asks for strength 12 (sqlite) and
+   the generic templates build the pattern with CONCAT( ) *)
+Theorem like_templates_fine :
+  forallb (fun d => forallb (fun t => negb (mem (fst (fst t)) concat_pattern_templates)) (bad_table d)) [d_sqlite; d_generic] = true.
 Proof. vm_compute. reflexivity. Qed.
-Print Assumptions like_templates_fine_outside_pattern_hole.
+Print Assumptions like_templates_fine.
+Example ex_like_templates_are_constructs :
+  forallb (fun d => forallb (fun n => existsb (fun p => leqb (fst p) n) (constructs d)) concat_pattern_templates) [d_sqlite; d_generic] = true.
+Proof. vm_compute. reflexivity. Qed.
 
 Theorem repaired_classes_are_fine :
   forallb (fun t => negb (mem_triple t (bad_table d_sqlite)) && negb (mem_triple t (bad_table d_generic)))
@@ -191,7 +192,9 @@ Theorem repaired_classes_are_fine :
       (k_lt, 0, k_regex)%nat         (* C02-N3 (a ~= b) < c *);
       (k_text_contains, 0, k_eq)%nat (* C02-N6 (a == b) | text.contains c  was  a = b LIKE ... *);
       (k_lt, 0, k_text_contains)%nat (* C02-N6 (a | text.contains c) < b  was  a LIKE ... < b *);
-      (k_text_starts_with, 0, k_add)%nat; (k_mul, 1, k_text_ends_with)%nat ] = true.
+      (k_text_starts_with, 0, k_add)%nat; (k_mul, 1, k_text_ends_with)%nat;
+      (k_text_starts_with, 1, k_add)%nat (* C02-N5 text.starts_with (b + c) a  was  a LIKE b + c || '%' *);
+      (k_text_contains, 1, k_mul)%nat; (k_text_ends_with, 1, k_lt)%nat ] = true.
 Proof. vm_compute. reflexivity. Qed.
 Print Assumptions repaired_classes_are_fine.
 
@@ -212,16 +215,12 @@ Proof. vm_compute. reflexivity. Qed.
 Print Assumptions template_strength_honest_refuted.
 
 (* every hole asks for at least what its position in the template text needs (all templates, all 12 dialects).
-   Known: the right operand of the infix regex templates of postgres / glaredb (`{text} ~ {pattern}`), and
-   C02-N5: the pattern hole next to `||` in the LIKE templates of sqlite (starts_with, contains, ends_with) and
-   redshift (contains) -- `{column:7} LIKE '%' || {substr:0} || '%'`; e8f08a7 repaired the column hole only.
-   (bigquery math.degrees / radians, C02-N4, and sqlite REGEXP, C02-N3, were repaired: eca0a1b, ac95a5d.) *)
-Definition m_sqlite : str := [115;113;108;105;116;101]%N.
+   Known: the right operand of the infix regex templates of postgres / glaredb (`{text} ~ {pattern}`).
+   (bigquery math.degrees / radians, C02-N4, sqlite REGEXP, C02-N3, and the `||` pattern holes of the sqlite / redshift
+   LIKE templates, C02-N5, were repaired: eca0a1b, ac95a5d, bb7bbd5.) *)
 Definition known_insufficient : list str :=
   [tname_of [112;111;115;116;103;114;101;115] [114;101;103;101;120;95;115;101;97;114;99;104];
-   tname_of [103;108;97;114;101;100;98] [114;101;103;101;120;95;115;101;97;114;99;104];
-   tname_of m_sqlite [116;101;120;116;46;115;116;97;114;116;115;95;119;105;116;104]; tname_of m_sqlite [116;101;120;116;46;99;111;110;116;97;105;110;115]; tname_of m_sqlite [116;101;120;116;46;101;110;100;115;95;119;105;116;104];
-   tname_of [114;101;100;115;104;105;102;116] [116;101;120;116;46;99;111;110;116;97;105;110;115]]%N.
+   tname_of [103;108;97;114;101;100;98] [114;101;103;101;120;95;115;101;97;114;99;104]]%N.
 Theorem hole_strength_sufficient_partial :
   forallb (fun t => mem (tname t) known_insufficient || template_holes_sufficient t) templates = true.
 Proof. vm_compute. reflexivity. Qed.
